@@ -318,3 +318,153 @@ Proof.
       destruct (N.eqb key 0), (N.eqb key 1); repeat constructor.
   - apply Forall_map. apply Forall_true. intros. repeat constructor.
 Qed.
+
+(* ------------------------------------------------------------------ a condition-wise invariant of everything norm builds *)
+Section Invariant.
+  Variable P : cond -> Prop.
+  Hypothesis P_data : forall d, P (CData d).
+  Hypothesis P_imp : P CImp.
+  Hypothesis P_atom : forall a, Forall (Forall P) (conds_of_atom a).
+  Hypothesis P_invert : forall c, P c -> Forall (Forall P) (cond_invert c).
+  Hypothesis P_clean : forall c, Forall P c -> Forall P (conj_clean c).
+
+  Lemma inv_cs_and a b : Forall (Forall P) a -> Forall (Forall P) b -> Forall (Forall P) (cs_and a b).
+  Proof.
+    intros Ha Hb. unfold cs_and. destruct a as [|a0 a']; [exact Hb|]. destruct b as [|b0 b']; [exact Ha|].
+    rewrite Forall_forall in *. intros c Hc.
+    apply in_flat_map in Hc as (c1 & H1 & Hc). apply in_map_iff in Hc as (c2 & <- & H2).
+    apply P_clean. apply Forall_app; split; [apply (Ha c1 H1)|apply (Hb c2 H2)].
+  Qed.
+  Lemma inv_conj_invert c : Forall P c -> Forall (Forall P) (conj_invert c).
+  Proof.
+    intros H. destruct c as [|x c]; [repeat constructor; exact P_imp|]. unfold conj_invert. apply Forall_forall.
+    intros cc Hc. apply in_flat_map in Hc as (y & Hy & Hc). rewrite Forall_forall in H.
+    pose proof (P_invert y (H y Hy)) as Hi. rewrite Forall_forall in Hi. auto.
+  Qed.
+  Lemma inv_cs_invert cs : Forall (Forall P) cs -> Forall (Forall P) (cs_invert cs).
+  Proof.
+    intros H. unfold cs_invert.
+    assert (G : forall acc : cset, Forall (Forall P) acc ->
+                Forall (Forall P) (fold_left (fun acc cc => cs_and acc (conj_invert cc)) cs acc)).
+    { induction H as [|c cs Hc Hcs IH]; intros acc Hacc; cbn [fold_left]; [exact Hacc|].
+      apply IH. apply inv_cs_and; [exact Hacc|apply inv_conj_invert; exact Hc]. }
+    apply G. constructor.
+  Qed.
+  Lemma inv_conj_then a b : Forall P a -> Forall P b -> Forall P (conj_then a b).
+  Proof.
+    intros Ha Hb. unfold conj_then.
+    assert (Hnd : Forall P (filter (fun x => negb (is_data x)) a ++ filter (fun x => negb (is_data x)) b)).
+    { apply Forall_app; split; rewrite Forall_forall in *; intros x Hx; apply filter_In in Hx as [Hx _]; auto. }
+    assert (Hdata : forall l, Forall P (map CData l)) by (intros l; apply Forall_map, Forall_true; intros; apply P_data).
+    destruct (sel_data a) as [|a0 al] eqn:Ea; [apply Forall_app; split; [exact Hnd|apply Forall_app; split; apply Hdata]|].
+    destruct (sel_data b) as [|b0 bl] eqn:Eb; [apply Forall_app; split; [exact Hnd|apply Forall_app; split; apply Hdata]|].
+    apply Forall_app; split; [exact Hnd|]. apply Forall_forall. intros x Hx. apply in_flat_map in Hx as (ad & _ & Hx).
+    destruct (d_inv ad).
+    - destruct Hx as [<-|Hx]; [apply P_data|]. destruct (existsb _ _); [contradiction|]. apply in_map_iff in Hx as (bd & <- & _). apply P_data.
+    - apply in_map_iff in Hx as (bd & <- & _). apply P_data.
+  Qed.
+  Lemma inv_cs_then a b : Forall (Forall P) a -> Forall (Forall P) b -> Forall (Forall P) (cs_then a b).
+  Proof.
+    intros Ha Hb. unfold cs_then. destruct a as [|a0 a']; [exact Hb|]. destruct b as [|b0 b']; [exact Ha|].
+    rewrite Forall_forall in *. intros c Hc.
+    apply in_flat_map in Hc as (c1 & H1 & Hc). apply in_map_iff in Hc as (c2 & <- & H2).
+    apply inv_conj_then; [apply (Ha c1 H1)|apply (Hb c2 H2)].
+  Qed.
+  Theorem inv_norm e : forall cs, norm e = Some cs -> Forall (Forall P) cs.
+  Proof.
+    induction e as [a| |a IH|a IHa b IHb|a IHa b IHb|a IHa b IHb]; intros cs H; cbn [norm] in H.
+    - inversion H; subst. apply P_atom.
+    - discriminate.
+    - destruct (norm a) as [x|]; [|discriminate]. inversion H; subst. apply inv_cs_invert. apply IH. reflexivity.
+    - destruct (norm a) as [x|], (norm b) as [y|]; inversion H; subst.
+      + apply inv_cs_and; [apply IHa|apply IHb]; reflexivity.
+      + apply IHa; reflexivity.
+      + apply IHb; reflexivity.
+    - destruct (norm a) as [x|], (norm b) as [y|]; inversion H; subst.
+      + apply Forall_app; split; [apply IHa|apply IHb]; reflexivity.
+      + apply IHa; reflexivity.
+      + apply IHb; reflexivity.
+    - destruct (norm a) as [x|], (norm b) as [y|]; inversion H; subst.
+      + apply inv_cs_then; [apply IHa|apply IHb]; reflexivity.
+      + apply IHa; reflexivity.
+      + apply IHb; reflexivity.
+  Qed.
+End Invariant.
+
+(* ---- flag conditions never name a sub-query twice *)
+Lemma subs_cancel_nodup l : NoDup l -> subs_cancel l = l.
+Proof.
+  induction l as [|a [|b r] IH]; intros H; try reflexivity.
+  change (subs_cancel (a :: b :: r)) with (if N.eqb a b then subs_cancel r else a :: subs_cancel (b :: r)).
+  inversion H as [|? ? Hn Hd]; subst. destruct (N.eqb_spec a b) as [->|Hne]; [exfalso; apply Hn; left; reflexivity|].
+  f_equal. apply IH. exact Hd.
+Qed.
+Lemma nsort_nodup l : NoDup l -> NoDup (nsort l).
+Proof. intros H. eapply Permutation_NoDup; [apply Permutation_sym, isort_perm|exact H]. Qed.
+
+(* the duplicate loop of cleanFlagConditions removes nothing (its `i -= 2` is never executed) *)
+Theorem flag_subs_loop_idle l : NoDup l -> subs_cancel (nsort l) = nsort l.
+Proof. intros H. apply subs_cancel_nodup. apply nsort_nodup. exact H. Qed.
+
+Lemma info_ins_subs subs f m :
+  NoDup subs -> Forall (fun d => NoDup (fi_subs d)) m -> Forall (fun d => NoDup (fi_subs d)) (info_ins subs f m).
+Proof.
+  intros Hs. induction 1 as [|d r Hd Hr IH]; cbn [info_ins]; [repeat constructor; exact Hs|].
+  destruct (list_eqb N.eqb subs (fi_subs d)); constructor; auto.
+Qed.
+Lemma flag_collect_subs l : forall m out,
+  Forall (fun c => NoDup (f_subs c)) l -> Forall (fun d => NoDup (fi_subs d)) m ->
+  flag_collect l m = Some out -> Forall (fun d => NoDup (fi_subs d)) out.
+Proof.
+  induction l as [|c r IH]; intros m out Hl Hm H; cbn [flag_collect] in H; [inversion H; subst; exact Hm|].
+  inversion Hl as [|? ? Hc Hr]; subst.
+  pose proof (flag_subs_loop_idle (f_subs c) Hc) as Hidle. pose proof (nsort_nodup _ Hc) as Hnd.
+  rewrite Hidle in H. destruct (nsort (f_subs c)) as [|s0 ss] eqn:Es.
+  - destruct (N.eqb _ 0); [discriminate|]. eapply IH; eauto.
+  - eapply IH; [exact Hr| |exact H]. apply info_ins_subs; auto.
+Qed.
+Lemma flag_emit_subs m : forall out,
+  Forall (fun d => NoDup (fi_subs d)) m -> flag_emit m = Some out -> Forall (fun c => NoDup (f_subs c)) out.
+Proof.
+  induction m as [|d r IH]; intros out Hm H; cbn [flag_emit] in H; [inversion H; constructor|].
+  inversion Hm as [|? ? Hd Hr]; subst. destruct (N.eqb _ 0).
+  - destruct (fi_forb d 0%N); [discriminate|]. auto.
+  - destruct (flag_emit r) as [o|]; [|discriminate]. inversion H; subst. apply Forall_app; split; [|auto].
+    apply Forall_map. apply Forall_true. intros u. exact Hd.
+Qed.
+Lemma clean_flag_subs l out : Forall (fun c => NoDup (f_subs c)) l -> clean_flag l = Some out -> Forall (fun c => NoDup (f_subs c)) out.
+Proof.
+  intros Hl. unfold clean_flag. destruct l as [|c0 l0] eqn:El; [intros H; inversion H; constructor|]. rewrite <- El in *.
+  destruct (flag_collect l []) as [m|] eqn:Ec; [|discriminate].
+  pose proof (flag_collect_subs l [] m Hl (Forall_nil _) Ec) as Hm.
+  destruct (flag_emit m) as [o|] eqn:Ee; [|discriminate]. intros H; inversion H; subst.
+  apply isort_Forall. eapply flag_emit_subs; eauto.
+Qed.
+Lemma sel_flag_subs c : Forall flag_subs_ok c -> Forall (fun f => NoDup (f_subs f)) (sel_flag c).
+Proof. induction 1 as [|x c Hx Hc IH]; cbn; [constructor|]. destruct x; cbn; auto. Qed.
+Lemma conj_clean_flag_subs c : Forall flag_subs_ok c -> Forall flag_subs_ok (conj_clean c).
+Proof.
+  intros H. unfold conj_clean. destruct (has_imp c); [repeat constructor|].
+  destruct (clean_tag _); [|repeat constructor]. destruct (clean_flag (sel_flag c)) as [f|] eqn:Ef; [|repeat constructor].
+  destruct (clean_host _); [|repeat constructor]. destruct (clean_num _); [|repeat constructor].
+  destruct (clean_time _); [|repeat constructor]. destruct (clean_data _); [|repeat constructor].
+  repeat (apply Forall_app; split); apply Forall_map; try (apply Forall_true; intros; exact I).
+  apply (clean_flag_subs (sel_flag c) f (sel_flag_subs c H) Ef).
+Qed.
+Lemma cond_invert_flag_subs c : flag_subs_ok c -> Forall (Forall flag_subs_ok) (cond_invert c).
+Proof.
+  intros H. destruct c as [t|f|h|n|tm|d|]; cbn [cond_invert]; try (repeat constructor; fail).
+  - constructor; [|constructor]. apply flag_invert_subs. exact H.
+  - unfold data_invert. apply Forall_map. apply Forall_true. intros. repeat constructor.
+Qed.
+
+(* every flag condition in every set the normaliser builds, for every expression *)
+Theorem norm_flag_subs e : forall cs, norm e = Some cs -> Forall (Forall flag_subs_ok) cs.
+Proof.
+  apply inv_norm.
+  - intros; exact I.
+  - exact I.
+  - exact conds_of_atom_flag_subs.
+  - exact cond_invert_flag_subs.
+  - exact conj_clean_flag_subs.
+Qed.
